@@ -130,7 +130,8 @@ def aggregate(rep, jobs, names):
         rep.inconclusive.append("no call executed for types %r" % (missing,))
 
 
-def run(prop, tier, seed, names, level, rule, include_points=False, design_ref=None, minimum_hull=1000):
+def run(prop, tier, seed, names, level, rule, include_points=False, design_ref=None, minimum_hull=1000,
+        extra_jobs=None, extra_aggregate=None):
     from framework.report import Report
 
     rep = Report(prop, tier, seed, level, rule)
@@ -145,8 +146,10 @@ def run(prop, tier, seed, names, level, rule, include_points=False, design_ref=N
     ejobs = modelfamily.build_jobs(prop, tier, seed + 17, do=["enum"], monitors=["budget", "calls"], jit_share=0.0,
                                    njobs=4 if q else 8, per_job=30 if q else 500, configs_per_model=2,
                                    monitor_opts={"calls": {"hull_limit": 3000}})
-    common.run_jobs(jobs + ejobs)
+    common.run_jobs(jobs + ejobs + list(extra_jobs or []))
     aggregate(rep, jobs, names)
+    if extra_jobs:
+        extra_aggregate(rep, extra_jobs)
     d1 = rep.distinct
     ev = rep.evaluations
     rep.distinct = set()
@@ -165,6 +168,10 @@ def run(prop, tier, seed, names, level, rule, include_points=False, design_ref=N
 
 def replay_generic(prop, rep_json):
     w = rep_json["witness"]
+    if w.get("stream") == "big":
+        from framework.props import modelfamily
+
+        return modelfamily.replay_generic(prop, rep_json)
     mode = w.get("mode", "interp")
     j = Job("framework.props.calls", "replay_call", {"prop": prop, "call": w["call"]}, mode=mode, timeout=300)
     common.run_jobs([j])
